@@ -695,6 +695,9 @@ def eval_order2(case_dec, rng):
         return Outcome("not_judged", "kink_point")
     if case_dec.get("domain") == "herm":
         return Outcome("not_judged", "restricted_domain")
+    if _reduced(y0) or _reduced(x0):
+        # float16/32 values against float64 finite differences: second-order values are not comparable at 1e-6
+        return Outcome("not_judged", "reduced_precision")
     from autograd.core import make_jvp, make_vjp
 
     w = rand_like(rng, y0)
